@@ -102,18 +102,6 @@ theorem prun_closeAll (l : List Fd) : (Sys.closeAll l).prun w = () := rfl
 
 theorem prun_gettid : Sys.gettid.prun w = 1 := rfl
 
-theorem prun_freeze (fuel : Nat) (fd : Fd) : (Sys.freeze (fuel + 1) fd).prun w = true := by
-  rw [Sys.freeze.eq_2, prun_bind, prun_gettid, prun_bind]
-  have hp : (Sys.freeze.probe fuel (Sys.threadSelfCandidates 1)).prun w = some (some b!"thread-self") := by
-    unfold Sys.threadSelfCandidates
-    rw [Sys.freeze.probe.eq_2]
-    simp [PWorld.answer]
-  rw [hp]
-  dsimp only
-  split
-  · rfl
-  · rfl
-
 theorem prun_failWith {α : Type} (fds : List Fd) (e : Nat) :
     Prog.prun w (Sys.failWith (α := α) fds e) = .error (.os e) := by
   unfold Sys.failWith
@@ -122,9 +110,7 @@ theorem prun_failWith {α : Type} (fds : List Fd) (e : Nat) :
   | cons fd rest ih =>
     unfold Sys.failWith.go
     rw [prun_bind]
-    have : (Sys.freeze Sys.diagFuel fd).prun w = true := prun_freeze w 2 fd
-    rw [this]
-    simpa using ih
+    exact ih
 
 @[simp] theorem prun_bind'_simp {α β : Type} (p : M α) (f : α → M β) :
     Prog.prun w (M.bind' p f) = match Prog.prun w p with
